@@ -1059,7 +1059,7 @@ class BaseMatcher:
     def _match_non_emitting_states_end(self, cur_lattice, obs_idx, obs_next,
                                        lattice_best, expand=False):
         for m in cur_lattice.values():  # type: BaseMatching
-            if m.stop or m.delayed > self.expand_now:
+            if m.stop or m.delayed != self.expand_now:
                 continue
             if m.edge_m.l2 is not None:
                 # Move to neighbour edge from edge
